@@ -37,7 +37,7 @@ def worker(a):
     tol = scat * (1e-9 + (2 * math.pi * sum(abs(x) for x in h) * 1e-6 if tab["thirds"] else 0.0)) + 1e-12
     tag = "Sg%d %s hkl %s" % (tab["no"], name, h)
     R = [np.array(r, dtype=float) for r in tab["rot"]]
-    def oracle(cc, build):
+    def oracle(cc, build, met=met):
         """explicit P1 sum for the scale cc of the reciprocal metric"""
         s2_ = cc * S.qform(met, h) / 4.0
         tot = 0j
@@ -78,6 +78,22 @@ def worker(a):
         if abs(Fb - want2) > tol:
             out.append("StructureFactor on the same atom objects in a second cell = %r, explicit sum = %r (|diff| %.3g): something computed for the "
                        "first cell is reused (%s)" % (Fb, want2, abs(Fb - want2), tag))
+        # ... and in a cell with the SAME edge lengths but another angle (triclinic and monoclinic groups): whatever is remembered per
+        # (a, b, c) must not be taken for the cell.  The oracle runs on the float reciprocal metric of that cell.
+        if tab["crystal_system"] in ("triclinic", "monoclinic"):
+            cell3 = [float(q_) for q_ in cell]
+            cell3[4] = cell3[4] + (7.0 if cell3[4] < 120 else -7.0)
+            ca, cb, cg = [math.cos(math.radians(q_)) for q_ in cell3[3:]]
+            a_, b_, c_ = cell3[:3]
+            Gd = np.array([[a_ * a_, a_ * b_ * cg, a_ * c_ * cb], [a_ * b_ * cg, b_ * b_, b_ * c_ * ca], [a_ * c_ * cb, b_ * c_ * ca, c_ * c_]])
+            if np.linalg.det(Gd) > 1e-3 * (a_ * b_ * c_) ** 2:
+                Gs = np.linalg.inv(Gd)
+                met3 = [Gs[0, 0], Gs[1, 1], Gs[2, 2], Gs[1, 2], Gs[0, 2], Gs[0, 1]]
+                want3, _ = oracle(1.0, False, met3)
+                Fc = S.call_sf(h, cell3, name, atoms, disp)
+                if abs(Fc - want3) > tol:
+                    out.append("StructureFactor on the same atom objects in a cell with the same edge lengths and another angle = %r, explicit sum = %r "
+                               "(|diff| %.3g): something remembered per (a, b, c) is reused (%s)" % (Fc, want3, abs(Fc - want3), tag))
         # corollaries
         sh_atoms = [S.make_atom(a_.label, a_.atomtype, [x + d for x, d in zip(a_.pos, (1, -2, 3))], a_.adp_type, a_.adp, a_.occ, a_.symmulti)
                     for a_ in atoms]
